@@ -25,6 +25,12 @@ pub const SCRIPT_EXHAUSTED: &str = "device script exhausted";
 pub struct Script {
     pub hdr: [u32; 4],
     pub script: VecDeque<u32>,
+    /// last value written to the Status register
+    pub status: u32,
+    /// reads of the Status register are answered from the script (operation `get_status`); otherwise
+    /// from the latched value: an extra read of the status register by another operation is harmless
+    /// and not part of the compared trace
+    pub status_scripted: bool,
 }
 
 pub struct ScriptDev(pub Rc<RefCell<Script>>);
@@ -35,18 +41,25 @@ impl MmioDevice for ScriptDev {
         if offset < 0x10 && width == 4 && offset % 4 == 0 {
             return s.hdr[offset / 4] as u64;
         }
+        if offset == 0x70 && width == 4 && !s.status_scripted {
+            return s.status as u64;
+        }
         match s.script.pop_front() {
             Some(v) => v as u64,
             None => panic!("{}", SCRIPT_EXHAUSTED),
         }
     }
-    fn write(&mut self, _offset: usize, _width: u8, _value: u64) {}
+    fn write(&mut self, offset: usize, width: u8, value: u64) {
+        if offset == 0x70 && width == 4 {
+            self.0.borrow_mut().status = value as u32;
+        }
+    }
 }
 
 /// Installs a fresh scripted device of `region_len` bytes at `HDR_BASE`.
 pub fn install(hdr: [u32; 4], region_len: usize) -> Rc<RefCell<Script>> {
     mmio::reset();
-    let st = Rc::new(RefCell::new(Script { hdr, script: VecDeque::new() }));
+    let st = Rc::new(RefCell::new(Script { hdr, script: VecDeque::new(), status: 0, status_scripted: false }));
     mmio::register(HDR_BASE, region_len, "hdr", Box::new(ScriptDev(st.clone())));
     st
 }
@@ -653,8 +666,12 @@ fn session(ctx: &Ctx, idx: usize, id: String, kind: Kind) -> Case {
         };
         let reads = gen_reads(&mut rng, &op, legacy, vendor);
         st.borrow_mut().script = reads.iter().copied().collect();
+        st.borrow_mut().status_scripted = matches!(op, Op::GetStatus);
         let (res, trace) = run_op(&mut tr, &op);
         st.borrow_mut().script.clear();
+        st.borrow_mut().status_scripted = false;
+        // un-scripted reads of the status register are not compared (see `Script`)
+        let trace: Vec<Access> = if matches!(op, Op::GetStatus) { trace } else { trace.into_iter().filter(|a| a.write || a.offset != 0x70).collect() };
         c.tag(op.line(0, "", &[]).split(' ').nth(1).unwrap_or("?").to_string());
         // oracles on the real trace
         for f in oracle_legal(legacy, &trace) {
